@@ -13,7 +13,9 @@ answer the call actually gave (both outcomes are accepted, the rest of the histo
 from collections import namedtuple
 
 UNIT = 1.0 / 1024
-EPS = 1e-9          # precision/timing of SimGrid: dates closer than this are treated as a tie
+# SimGrid's timing precision is 1e-9 s (a timeout below it lasts 1e-9 s, which shifts later dates of that actor off the 2^-10 grid by
+# whole nanoseconds): dates closer than a few of these are treated as a tie (either answer accepted), 1e-8 << 2^-10.
+EPS = 1e-8
 INF = float("inf")
 
 Ev = namedtuple("Ev", "k ln a op obj arg clock owner vals")
@@ -118,7 +120,8 @@ def check_sem(ctx, sc, out, w, pid="C05"):
                 if r.D == INF:
                     continue
                 o = obs.get(r.qi)
-                if c > r.D + EPS:
+                d = c - r.D             # one subtraction decides both tests below: no date may fall between "tie" and "passed"
+                if d > EPS:
                     queue[s].remove(r)
                     r.state = "expired"
                     if o is None:
@@ -127,7 +130,7 @@ def check_sem(ctx, sc, out, w, pid="C05"):
                     if o[0] != 1:
                         return vio("timeout-not-reported", r.tok, "acquire_timeout(%s) of actor %d called at %.9g got no token before its deadline %.9g, "
                                    "yet it returned 'acquired' at %.9g (it kept waiting past the deadline)" % (r.tok, r.a, r.clock, r.D, o[1]), ln)
-                elif abs(c - r.D) <= EPS and o is not None and o[0] == 1:
+                elif d >= -EPS and o is not None and o[0] == 1:
                     queue[s].remove(r)
                     r.state = "expired"
                     last_tie_expiry[s] = c
@@ -246,7 +249,8 @@ def check_cv(ctx, sc, out, w, pid="C06"):
                 if r.D == INF:
                     continue
                 o = obs.get(r.qi)
-                if c > r.D + EPS:
+                d = c - r.D             # one subtraction decides both tests below: no date may fall between "tie" and "passed"
+                if d > EPS:
                     waiters[v].remove(r)
                     r.state = "expired"
                     if o is None:
@@ -256,7 +260,7 @@ def check_cv(ctx, sc, out, w, pid="C06"):
                         return vio("timeout-not-reported", r.tok, "timed wait (%s) of actor %d on condvar %d called at %.9g was not notified before its "
                                    "deadline %.9g, yet it returned no_timeout at %.9g (it kept waiting past the deadline)"
                                    % (r.tok, r.a, v, r.clock, r.D, o[1]), ln)
-                elif abs(c - r.D) <= EPS and o is not None and o[0] == 1:
+                elif d >= -EPS and o is not None and o[0] == 1:
                     waiters[v].remove(r)
                     r.state = "expired"
         return True
@@ -365,67 +369,112 @@ def check_cv(ctx, sc, out, w, pid="C06"):
 
 
 # ------------------------------------------------------------------------------------------------ C07
-def check_bar(ctx, sc, out, w, pid="C07"):
-    lines = out.splitlines()
-    evs, ended, done = parse(out)
+class _Arr:
+    __slots__ = ("a", "ret", "res", "clock", "dead")
+
+    def __init__(self, a, clock):
+        self.a, self.clock, self.ret, self.res, self.dead = a, clock, False, None, False
+
+
+def _bar_model(sc, lines, evs, ended, done, dead_leaves):
+    """Arrival counting over one history. dead_leaves: a waiter killed while its group is incomplete leaves the group (True) or
+    stays counted as arrived (False) - the statement does not say, both are accepted by check_bar.
+    -> (facts, None) or (None, (rule, barrier, what, line))"""
     sizes = sc["sizes"]
     na, nb = len(sc["scripts"]), len(sizes)
-    arrivals = [[] for _ in range(nb)]     # per barrier: [actor, returned?, result]
-    pending = {}                           # actor -> (barrier, index)
+    seq = [[] for _ in range(nb)]          # per barrier: arrivals that count, in request order
+    pending = {}                           # actor -> (barrier, _Arr)
+    dead = set()
     facts = {"groups": 0, "waits": 0, "blocked_waits": 0, "forever": 0, "groups_one_true": 0, "groups_other_true": 0, "rearmed": 0,
-             "release_in_arrival_order": 0, "release_other_order": 0}
-    order = [[] for _ in range(nb)]        # indices in return order
-
-    def vio(rule, b, what, ln):
-        ctx.violation("%s:%s:size=%s" % (pid, rule, "1" if sizes[b] == 1 else "n"), "line %d: %s; history: %r" % (ln, what, tail(lines, ln)), w)
-        return None
+             "release_in_arrival_order": 0, "release_other_order": 0, "kills": 0, "kills_of_ungranted_waiters": 0}
+    order = [[] for _ in range(nb)]        # arrivals in return order
 
     prev = None
     for e in evs:
         if e.k == "Q" and e.op == "B":
-            pending[e.a] = (e.obj, len(arrivals[e.obj]))
-            arrivals[e.obj].append([e.a, False, None, e.clock])
+            if e.a in dead:
+                return "skip", None     # a killed actor issued a request in the scheduling round of its death: the statement is silent
+            x = _Arr(e.a, e.clock)
+            pending[e.a] = (e.obj, x)
+            seq[e.obj].append(x)
             facts["waits"] += 1
+        elif e.k == "Q" and e.op == "X":
+            facts["kills"] += 1
+            dead.add(e.obj)
+            if e.obj in pending:
+                b, x = pending[e.obj]
+                x.dead = True
+                n = sizes[b]
+                if seq[b].index(x) >= (len(seq[b]) // n) * n:     # its group is incomplete: the kill hits a really blocked waiter
+                    facts["kills_of_ungranted_waiters"] += 1
+                    del pending[e.obj]
+                    if dead_leaves:
+                        seq[b].remove(x)
+                # else its group is complete: the victim was released already and may or may not run once more before it dies
         elif e.k == "A" and e.op == "B":
             if e.a not in pending:
-                return vio("malformed", e.obj, "return of actor %d without a call" % e.a, e.ln)
-            b, idx = pending.pop(e.a)
+                return None, ("malformed", e.obj, "return of actor %d without a call" % e.a, e.ln)
+            b, x = pending.pop(e.a)
             n = sizes[b]
+            idx = seq[b].index(x)
             g = idx // n
-            if len(arrivals[b]) < (g + 1) * n:
-                return vio("early-release", b, "wait of actor %d (arrival #%d on barrier %d of size %d, group %d) returned when only %d actors had arrived: "
-                           "its group is incomplete" % (e.a, idx + 1, b, n, g + 1, len(arrivals[b])), e.ln)
-            if e.clock < arrivals[b][(g + 1) * n - 1][3]:
-                return vio("early-release", b, "wait of actor %d returned at %.9g, before the last arrival of its group (%.9g)"
-                           % (e.a, e.clock, arrivals[b][(g + 1) * n - 1][3]), e.ln)
-            arrivals[b][idx][1] = True
-            arrivals[b][idx][2] = e.arg
-            order[b].append(idx)
+            if len(seq[b]) < (g + 1) * n:
+                return None, ("early-release", b, "wait of actor %d (arrival #%d on barrier %d of size %d, group %d) returned when only %d actors had "
+                              "arrived: its group is incomplete" % (e.a, idx + 1, b, n, g + 1, len(seq[b])), e.ln)
+            if e.clock < seq[b][(g + 1) * n - 1].clock:
+                return None, ("early-release", b, "wait of actor %d returned at %.9g, before the last arrival of its group (%.9g)"
+                              % (e.a, e.clock, seq[b][(g + 1) * n - 1].clock), e.ln)
+            x.ret, x.res = True, e.arg
+            order[b].append(x)
             if not (prev is not None and prev.k == "Q" and prev.a == e.a):
                 facts["blocked_waits"] += 1
         if e.k in "QA":
             prev = e
     if not ended:
-        return vio("no-end", 0, "the run did not reach its end", len(lines) - 1)
+        return None, ("no-end", 0, "the run did not reach its end", len(lines) - 1)
     for b in range(nb):
         n = sizes[b]
-        full = len(arrivals[b]) // n
+        full = len(seq[b]) // n
         facts["groups"] += full
         if full >= 2:
             facts["rearmed"] += 1
-        for idx, (a, ret, res, _) in enumerate(arrivals[b]):
-            if idx < full * n and not ret:
-                return vio("lost-release", b, "actor %d (arrival #%d on barrier %d of size %d) never returned although its group of %d is complete "
-                           "(%d arrivals)" % (a, idx + 1, b, n, n, len(arrivals[b])), len(lines) - 1)
-            if idx >= full * n:
+        for idx, x in enumerate(seq[b]):
+            if idx < full * n and not x.ret and not x.dead:
+                return None, ("lost-release", b, "actor %d (arrival #%d on barrier %d of size %d) never returned although its group of %d is "
+                              "complete (%d arrivals)" % (x.a, idx + 1, b, n, n, len(seq[b])), len(lines) - 1)
+            if idx >= full * n and not x.dead:
                 facts["forever"] += 1
         for g in range(full):
-            trues = sum(1 for x in arrivals[b][g * n:(g + 1) * n] if x[2])
+            grp = seq[b][g * n:(g + 1) * n]
+            if any(x.dead for x in grp):
+                continue
+            trues = sum(1 for x in grp if x.res)
             facts["groups_one_true" if trues == 1 else "groups_other_true"] += 1
-            ret_order = [i for i in order[b] if g * n <= i < (g + 1) * n]
+            ret_order = [seq[b].index(x) for x in order[b] if x in grp]
             facts["release_in_arrival_order" if ret_order == sorted(ret_order) else "release_other_order"] += 1
-    blocked = [a for a in range(na) if a not in done]
-    for a in blocked:
-        if a not in pending:
-            return vio("stuck", 0, "actor %d never finished although it is not inside a barrier wait" % a, len(lines) - 1)
+    for a in range(na):
+        if a not in done and a not in dead and a not in pending:
+            return None, ("stuck", 0, "actor %d never finished although it is not inside a barrier wait" % a, len(lines) - 1)
+    return facts, None
+
+
+def check_bar(ctx, sc, out, w, pid="C07"):
+    lines = out.splitlines()
+    evs, ended, done = parse(out)
+    sizes = sc["sizes"]
+    facts, bad = _bar_model(sc, lines, evs, ended, done, True)
+    if facts == "skip":
+        return "skip"
+    if bad is not None and any(e.k == "Q" and e.op == "X" for e in evs):
+        facts2, bad2 = _bar_model(sc, lines, evs, ended, done, False)
+        if bad2 is None:
+            facts2["killed_waiter_still_counted"] = 1
+            return facts2
+    if bad is not None:
+        rule, b, what, ln = bad
+        ctx.violation("%s:%s:size=%s" % (pid, rule, "1" if sizes[b] == 1 else "n"), "line %d: %s; history: %r" % (ln, what, tail(lines, ln)), w)
+        return None
+    if facts["kills_of_ungranted_waiters"]:
+        _, bad2 = _bar_model(sc, lines, evs, ended, done, False)
+        facts["killed_waiter_left_its_group" if bad2 is not None else "kill_semantics_not_distinguished"] = 1
     return facts
